@@ -413,7 +413,7 @@ func checkNoTruncateReturns(h *H, rule string, f *ssa.Function) {
 		if !ok || len(ret.Results) != 2 {
 			return
 		}
-		if ir.Canon(ret.Results[0]) != ssa.Value(head) {
+		if ir.Canon(ir.ReturnValues(ret)[0]) != ssa.Value(head) {
 			return
 		}
 		n++
